@@ -321,10 +321,19 @@ fn do_write(s: &Spec, cap: usize, o: &mut Oracle) -> String {
                 o.fail("C05/write-overruns-buffer", format!("value={} cap={}", spec_str(s), cap));
             }
             if valid {
+                // C05 mechanism: compression is used iff it is strictly shorter, and flagged in the header
+                if let Spec::Chunks(_, _, _, _, d) = s {
+                    let plain = d.clone();
+                    let cl = HUFFMAN.compressed_len(&plain);
+                    let flagged = bytes[0] & 0x10 != 0;
+                    if flagged != (cl < plain.len()) || bytes.len() != HEADER_SIZE + if flagged { cl } else { plain.len() } {
+                        o.fail("C05/compressed-iff-strictly-shorter", format!("value={} plain={} compressed={} flagged={} written={}", &spec_str(s)[..spec_str(s).len().min(80)], plain.len(), cl, flagged, bytes.len()));
+                    }
+                }
                 if bytes.len() > MAX_PACKETSIZE {
                     o.fail("C05/valid-packet-too-long", format!("value={} len={}", spec_str(s), bytes.len()));
                 }
-                for scap in [MAX_PACKETSIZE, 2048] {
+                for scap in [MAX_PACKETSIZE, 2048, 4096] {
                     let mut scratch = vec![0u8; scap];
                     let mut ws: Vec<Warning> = vec![];
                     let want = spec_str(s);
@@ -1215,6 +1224,56 @@ impl Domain for D {
                     writeln!(w, "din 1400 {}", to_hex(&bytes)).unwrap();
                     writeln!(w, "iter {} {}", rng.below(5), to_hex(&bytes[..n.min(64)])).unwrap();
                 }
+            }
+            // ---- deterministic cases for realistic breaking edits (quick tier must reach them) ----
+            // one vital chunk of 1386..1390 bytes: chunk payloads of 1389..1393 bytes, plain and compressed
+            for n in [1386usize, 1387, 1388, 1389, 1390] {
+                for d in [vec![0u8; n], (0..n).map(|i| (i % 3) as u8).collect::<Vec<u8>>(), rng.bytes(n)] {
+                    let mut buf: Vec<u8> = Vec::with_capacity(1400);
+                    write_chunk(&d, Some((768, false)), &mut buf).unwrap();
+                    let s = Spec::Chunks(300, Token([1, 2, 3, 4]), false, 1, buf);
+                    writeln!(w, "write 1400 {}", spec_str(&s)).unwrap();
+                    if let Some(bytes) = write_spec(&s) {
+                        for cap in [1400usize, 2048, 4096] {
+                            writeln!(w, "read {} {}", cap, to_hex(&bytes)).unwrap();
+                        }
+                    }
+                }
+            }
+            // compressed payloads expanding past MAX_PACKETSIZE - HEADER_SIZE, scratch buffers as the
+            // callers use them (2048, 4096)
+            for n in [1390usize, 1391, 1392, 1393, 1394, 1395, 1397, 1500, 2000, 2040, 2041, 2042, 4088, 4089, 4090, 5000] {
+                for d in [vec![0u8; n], (0..n).map(|i| (i % 2) as u8).collect::<Vec<u8>>()] {
+                    let mut bytes = vec![0x10u8, 0x00, 0x01, 9, 8, 7, 6];
+                    bytes.extend(HUFFMAN.compress_into_vec(&d));
+                    if bytes.len() <= MAX_PACKETSIZE {
+                        for cap in [1400usize, 2048, 4096] {
+                            writeln!(w, "read {} {}", cap, to_hex(&bytes)).unwrap();
+                        }
+                        writeln!(w, "din 2048 {}", to_hex(&bytes)).unwrap();
+                    }
+                }
+            }
+            // connless flag on datagrams of exactly 7 and 8 bytes (shorter than the connless header)
+            writeln!(w, "hash_read 1400 - 0 256 0 000000000000").unwrap();
+            writeln!(w, "hash_read 1400 - 0 256 0 ffffffffffff").unwrap();
+            writeln!(w, "hash_read 1400 - 0 256 0 ffffffffffffff").unwrap();
+            for h in ["21000000000000", "2100000000000000", "21ffffffffffff", "21ffffffffffffff", "210000000000000000"] {
+                writeln!(w, "read 1400 {}", h).unwrap();
+                writeln!(w, "readp {}", h).unwrap();
+                writeln!(w, "din 1400 {}", h).unwrap();
+            }
+            // acks and sequence numbers >= 256 through whole packets
+            for ack in [255u16, 256, 257, 511, 512, 767, 768, 1023] {
+                let mut buf: Vec<u8> = Vec::with_capacity(64);
+                write_chunk(b"ab", Some((ack, ack % 2 == 0)), &mut buf).unwrap();
+                write_chunk(b"", Some((1023 - ack, false)), &mut buf).unwrap();
+                let s = Spec::Chunks(ack, Token([5, 6, 7, 8]), false, 2, buf.clone());
+                writeln!(w, "write 1400 {}", spec_str(&s)).unwrap();
+                if let Some(bytes) = write_spec(&s) {
+                    writeln!(w, "read 1400 {}", to_hex(&bytes)).unwrap();
+                }
+                writeln!(w, "wchunks 64 {}.1:6162 {}.0:-", ack, 1023 - ack).unwrap();
             }
             // D17 band: connless datagrams around the writer's limit
             for n in 1385..=1395usize {
